@@ -144,6 +144,12 @@ PROPS = {
         'assumptions': ["onig: Regex::with_options compiles the pattern in the given syntax; is_match accepts only whole-text matches (soundness); its result is otherwise an uninterpreted function of (pattern, flag, syntax, text)"],
         'not_decided': ['language membership itself (onig)'],
     },
+    'C06': {
+        'level': 'other',
+        'explanation': 'new_system (real body) computes the budget max(0, ARG_MAX - 2048 - environment) without underflow; the limiter installation statements of do_xargs (cut out verbatim) always add the system limiter, last, after the optional -n/-L/-s limiters; the chars limiter charges len+1 per argument (unit xlimits); an accepted batch leaves the POSIX headroom (lemma). That an accepted batch is accepted by execve is NOT provable against the kernel model (pointer overhead, 6 MiB cap, MAX_ARG_STRLEN): two known findings, hence level other.',
+        'assumptions': ['kernel model transcribed from Linux fs/exec.c (bprm_stack_limits, MAX_ARG_STRLEN = 32 pages) and glibc sysconf(_SC_ARG_MAX) = max(128 KiB, RLIMIT_STACK/4)', 'the limiter chain semantics (units xlimits, xproc)'],
+        'not_decided': [],
+    },
 }
 for k in PROPS.values():
     k.setdefault('trusted', [])
